@@ -240,6 +240,9 @@ def install(I, AP):
     install_field(I)
 
 
+FELT_TERMS = {}      # name of a `felt[<term>]` variable -> the machine-integer term it was built from (Felt::new / Felt::from)
+
+
 def install_field(I):
     ov = I.overrides
     ok = lambda v: Agg([v], "adt", "core::result::Result", "Ok")
@@ -254,7 +257,9 @@ def install_field(I):
             return Poly.const(x)
         if isinstance(x, Term) and x.op == "as_int" and len(x.args) == 1 and isinstance(x.args[0], Poly):
             return x.args[0]        # Felt::new(f.as_int()) = f
-        return Poly.var("felt[%r]" % (x,))
+        name = "felt[%r]" % (x,)
+        FELT_TERMS[name] = x
+        return Poly.var(name)
     add(r"BaseElement::new$", felt_new)
     add(r"BaseElement@From::from$", lambda I, a, f: felt_new(I, a, f) if not is_field(a[0]) else a[0])
     add(r"BaseElement@TryFrom::try_from$", lambda I, a, f: ok(felt_new(I, a, f)))
